@@ -122,12 +122,12 @@ def install():
     if black is not None:
         orig_format_str = black.format_str
 
-        def format_str(text, mode):
+        def format_str(text, *a, **k):
             if boundary("format", None) or FMT == "fail":
                 raise RuntimeError("injected black failure")
             if FMT == "garbage":
                 return "def (((:\n"
-            return orig_format_str(text, mode=mode)
+            return orig_format_str(text, *a, **k)
         black.format_str = format_str
 
     class _SP:
